@@ -983,7 +983,12 @@ def _get_unit_data_from_expr(unit_expr, unit_symbol_lut, derived_symbols=None):
         power = unit_expr.args[1]
         if isinstance(power, Symbol):
             raise UnitParseError(f"Invalid unit expression '{unit_expr}'.")
-        conv = float(unit_data[0] ** power)
+        try:
+            conv = float(unit_data[0] ** power)
+        except TypeError:
+            # a negative scale (lat) or number under a fractional power, a
+            # symbolic or complex exponent: not convertible to a float
+            raise UnitParseError(f"Invalid unit expression '{unit_expr}'.")
         unit = unit_data[1] ** power
         return (conv, unit)
 
